@@ -28,6 +28,21 @@ CHECKS = {
         TRUSTED + "; templates with a unique best candidate",
         "DESIGN.md 4/C06",
     ),
+    "C12": (
+        "model_checking",
+        "spec/Molecules.tla + TblOps.tla state every public table operation as a relation (generator Outcomes / "
+        "acceptor Accepts, proved equivalent on all reachable states by the TLC invariant GenSound); TblMachine.tla "
+        "is the two-table session machine whose invariants RowsIntact, LengthsAgree, GroupsPartition and Selection TLC "
+        "checks on every reachable state for all initial tables of 0..3 rows and every operation sequence up to the "
+        "bound. Conformance: every (state, operation) pair TLC explores and several hundred TLC-simulated 6-step "
+        "behaviours are executed on real Molecules objects, each call is recorded (pre-state, operation, outcome incl. "
+        "operand mutation and errors) and the trace is judged by TLC against TblOps!Accepts (Trace_Tbl.tla). Histories "
+        "are unbounded, so bounded exhaustive exploration of the model plus trace validation of real executions is the "
+        "strongest level available.",
+        "TLA+ spec (Molecules/TblOps/TblMachine) model-checked by TLC; TLC-generated programs run on the real code; recorded traces validated by TLC (Trace_Tbl.tla)",
+        TRUSTED + "; uid<->(position, orientation) encoding of harness/tables.py; exception types are not compared",
+        "DESIGN.md 4/C12",
+    ),
 }
 
 REASON_TODO = "check not built yet in this round (planned: see DESIGN.md section 4)"
